@@ -166,6 +166,10 @@ func init() {
 		Run: func(c *core.Ctx) []ob {
 			out := scanLostStore(c)
 			out = append(out, scanLazyInit(c)...)
+			out = append(out, scanLostVia(c)...)
+			for _, o := range control(c, "LOSTSTORE", scanLostVia, "(holder).Fill#via") {
+				out = append(out, withProps(o, all...))
+			}
 			for _, o := range control(c, "LOSTSTORE", scanLazyInit, "(Thing).remember") {
 				out = append(out, withProps(o, all...))
 			}
@@ -268,5 +272,122 @@ func scanLazyInit(c *core.Ctx) []ob {
 		})
 	})
 	c.Stats["lazyinit_sites"] = n
+	return out
+}
+
+// LOSTVIA — part of LOSTSTORE: a value-receiver method that calls, on (a value field of) its receiver copy, a
+// pointer-receiver method which assigns fields of *its* receiver. `func (ct Ciphertext) Copy(o *Ciphertext) {
+// ct.Element.Copy(&o.Element) }`: Element.Copy may set `op.MetaData = &MetaData{}`; the field it sets belongs to the
+// private copy `ct`, and is gone when the method returns.
+func scanLostVia(c *core.Ctx) []ob {
+	var out []ob
+	n := 0
+	// pointer-receiver methods that assign a field of their receiver
+	storers := map[*types.Func]string{}
+	c.FuncDecls(func(pk *packages.Package, file *ast.File, fd *ast.FuncDecl) {
+		if fd.Body == nil || fd.Recv == nil {
+			return
+		}
+		info := pk.TypesInfo
+		_, ptrRecv := core.RecvNamed(info, fd)
+		recv := recvObj(info, fd)
+		if !ptrRecv || recv == nil {
+			return
+		}
+		fn, _ := info.Defs[fd.Name].(*types.Func)
+		if fn == nil {
+			return
+		}
+		ast.Inspect(fd.Body, func(x ast.Node) bool {
+			as, ok := x.(*ast.AssignStmt)
+			if !ok {
+				return true
+			}
+			for _, l := range as.Lhs {
+				sel, ok := unparen(l).(*ast.SelectorExpr)
+				if !ok {
+					continue
+				}
+				if id, ok := unparen(sel.X).(*ast.Ident); ok && info.Uses[id] == recv {
+					if s := info.Selections[sel]; s != nil && s.Kind() == types.FieldVal {
+						storers[funcOrigin(fn)] = sel.Sel.Name
+					}
+				}
+			}
+			return true
+		})
+	})
+	c.FuncDecls(func(pk *packages.Package, file *ast.File, fd *ast.FuncDecl) {
+		if fd.Body == nil || fd.Recv == nil || fileIsTestSupport(c.Program, fd.Pos()) || inExamples(pk) {
+			return
+		}
+		info := pk.TypesInfo
+		_, ptrRecv := core.RecvNamed(info, fd)
+		recv := recvObj(info, fd)
+		if ptrRecv || recv == nil {
+			return
+		}
+		if _, isStruct := recv.Type().Underlying().(*types.Struct); !isStruct {
+			return
+		}
+		fkey := core.FuncKey(pk, fd)
+		ast.Inspect(fd.Body, func(x ast.Node) bool {
+			call, ok := x.(*ast.CallExpr)
+			if !ok {
+				return true
+			}
+			sel, ok := unparen(call.Fun).(*ast.SelectorExpr)
+			if !ok {
+				return true
+			}
+			f := calleeFunc(info, call)
+			if f == nil {
+				return true
+			}
+			field, isStorer := storers[funcOrigin(f)]
+			if !isStorer {
+				return true
+			}
+			// the receiver of the call is the value copy or a value field of it (no pointer on the way)
+			e := unparen(sel.X)
+			viaPointer := false
+			for {
+				s2, ok := e.(*ast.SelectorExpr)
+				if !ok {
+					break
+				}
+				if t := info.TypeOf(s2.X); t != nil {
+					if _, isPtr := t.Underlying().(*types.Pointer); isPtr {
+						viaPointer = true
+					}
+				}
+				e = unparen(s2.X)
+			}
+			id, ok := e.(*ast.Ident)
+			if !ok || info.Uses[id] != recv || viaPointer {
+				return true
+			}
+			if s := info.Selections[sel]; s != nil && s.Indirect() {
+				return true
+			}
+			n++
+			key := fmt.Sprintf("LOSTSTORE:%s#via(%s)", fkey, f.Name())
+			// the copy is used afterwards (returned, read): then the store reaches somebody
+			usedAfter := false
+			ast.Inspect(fd.Body, func(y ast.Node) bool {
+				if i2, ok := y.(*ast.Ident); ok && info.Uses[i2] == recv && i2.Pos() > call.End() {
+					usedAfter = true
+				}
+				return true
+			})
+			if usedAfter {
+				out = append(out, withProps(okOb("LOSTSTORE", key, c.Rel(call.Pos()), "the receiver copy is used after the call", true), lostProps(fkey)...))
+			} else {
+				out = append(out, withProps(violOb("LOSTSTORE", key, c.Rel(call.Pos()), fmt.Sprintf("%s has a value receiver and calls %s on its private copy; %s assigns the field %s of its receiver, and the copy is not used afterwards: what it allocates there (e.g. the metadata of an element that had none) is lost to the caller", fkey, f.Name(), f.Name(), field)), lostProps(fkey)...))
+			}
+			return true
+		})
+	})
+	c.Stats["lostvia_sites"] = n
 	return out
 }
